@@ -35,6 +35,10 @@ def gen_setup(rng, decimal=False):
     if rng.random() < 0.4:                            # ... spanned by interior vertices of a curved feature, its ends (the nodes of a network edge) lying inside
         trs[0] = [[rng.randint(1, W * step - 1) / float(step), rng.randint(1, H * step - 1) / float(step)]] + trs[0] + [[rng.randint(1, W * step - 1) / float(step), rng.randint(1, H * step - 1) / float(step)]]
     how = rng.choice(['collection', 'collection', 'network', 'incremental'])
+    if how == 'collection' and rng.random() < 0.2:
+        # a track reduced to one fix among the others (it has no segment to register): the features after it keep their own numbers
+        trs.insert(rng.randint(1, len(trs)), [[rng.randint(0, W * step) / float(step), rng.randint(0, H * step) / float(step)]])
+        ntr += 1
     extra = {'how': how, 'first': rng.randint(1, ntr)}
     if decimal:
         return {**extra, 'W': W, 'H': H, 'tracks': trs, 'margin': rng.choice([0.0, 0.05, 0.25, 0.1]), 'res': [rng.choice([0.5, 1.0, 0.7, 0.3, 2.0]), rng.choice([0.5, 1.0, 0.7, 0.3, 2.0])]}
